@@ -233,6 +233,9 @@ func (e *Engine) netBuiltin(env *Env, name string, ex *SExpr) (Val, bool) {
 		return Val{}, false
 	}
 	switch name {
+	case "bigval":
+		// bigval(x): the integer value of a *big.Int
+		return Val{S: bigVal(env.st, arg(0).S), T: tInt}, true
 	case "inAt", "outAt":
 		// inAt(conn, i) / outAt(conn, i): byte i of the ghost stream read from / written to the connection
 		hn := "L!wire!" + name[:len(name)-2] + "arr"
